@@ -36,7 +36,7 @@ FIELD_WORD = {
     "mc": "M-constraint", "consts": "adjacency-const", "funcs": "function-name", "sinfo": "signal-info",
     "minfo": "method-port-info", "phs": "placeholder-set",
 }
-KIND_FIELDS = ("named", "calls", "adj", "conn", "sigs", "rdu", "wru", "mc")
+KIND_FIELDS = ("named", "calls", "adj", "conn", "sigs", "rdu", "wru", "mc", "rd", "wr")
 _SLICE = re.compile(r"\[\d+:\d+\]$")
 # _dsl container  ->  projected field (used to fold a reachability finding into the metadata finding
 # of the same container)
@@ -401,6 +401,28 @@ def _marked(x):
     return "<stale>" in x or "<deleted>" in x or "<nohost>" in x
 
 
+def _prefixes(name):
+    """proper prefixes of a dotted / indexed name, longest first"""
+    out = []
+    for i in range(len(name) - 1, 0, -1):
+        if name[i] in ".[" :
+            out.append(name[:i])
+    return out
+
+
+def _levels_above(blk_host, obj, comps):
+    """how many component levels the host of a block is above the component that owns obj (0 = the
+    block's own component, 1 = its parent, ...); None when obj is not below the block's host"""
+    own = next((p for p in _prefixes(obj) if p in comps), None)
+    n = 0
+    while own is not None:
+        if own == blk_host:
+            return n
+        own = next((p for p in _prefixes(own) if p in comps), None)
+        n += 1
+    return None
+
+
 def classify(stale, missing, dup, kinds_new, kinds_fresh):
     """Root-cause view of a metadata difference.
 
@@ -455,6 +477,9 @@ def classify(stale, missing, dup, kinds_new, kinds_fresh):
         if pre_mnets:
             which.pop("mnets", None)
 
+    comps = {n for ks in (kinds_new, kinds_fresh) for n, k in ks.items() if k == "Component"}
+    comps = {_strip(n) for n in comps}
+
     def kind_of(f, e, kinds):
         if f not in KIND_FIELDS:
             return None
@@ -471,10 +496,14 @@ def classify(stale, missing, dup, kinds_new, kinds_fresh):
                 return None
             own = mth[0].startswith(blk[0] + ".") and "." not in mth[0][len(blk[0]) + 1:]
             return None if own else "ancestor-block"
+        if f in ("rd", "wr", "calls"):      # block of the parent / of a component further up / own block
+            up = _levels_above(_strip(e[0]).split("::")[0], _strip(e[1]), comps)
+            k0 = kinds.get(e[1], "?") if f == "calls" else None
+            if up is not None and up >= 2:
+                return (k0 + "/grandparent-block") if k0 else "grandparent-block"
+            return k0
         if f == "named":
             x = e[0]
-        elif f == "calls":
-            x = e[1]
         elif f == "adj":
             x = e[0]
         else:
@@ -613,11 +642,14 @@ def collect_removed(comp):
     return out
 
 
-def apply_step(fam, top, kind, pos, cls, cfg=None, obj=None):
+def apply_step(fam, top, kind, pos, cls, cfg=None, obj=None, removed_out=None):
     """one API call on the real design; cfg = configuration before the step (needed to build the
-    object of replace_component_with_obj for a hosting position); obj = an object built beforehand"""
+    object of replace_component_with_obj for a hosting position); obj = an object built beforehand;
+    removed_out: list that receives the objects of the removed component even if the call raises"""
     comp = component_at(top, pos)
     removed = collect_removed(comp)
+    if removed_out is not None:
+        removed_out.extend(removed)
     if kind == "Replace":
         top.replace_component(comp, fam.classes[cls])
     else:
@@ -886,7 +918,8 @@ def extract_model(fam, extra_cfgs=()):
          "harness": {f: sorted(json.loads(k) for k in harness[f]) for f in PRIMARY},
          "local": {c: {f: sorted(json.loads(k) for k in local[c][f]) for f in PRIMARY} for c in classes},
          "palof": {p: list(fam.palof[p]) for p in fam.positions},
-         "below": {p: list(fam.below[p]) for p in fam.positions}}
+         "below": {p: list(fam.below[p]) for p in fam.positions},
+         "deep": [p for p in fam.positions if "." in p]}
     m["rovl"] = range_overlaps(m)
     return m
 
@@ -1005,6 +1038,23 @@ def compare_sim(fam, ref, got, sigs, pg):
     return {"kind": "both-raise", "pg": pg, "fresh": ref[1], "replaced": got[1]}
 
 
+def stale_holders(top, removed, pos):
+    """which blocks still read / write / call an object of the removed component (public getters):
+    sorted list of 'parent-block' / 'grandparent-block' (a block two or more levels above)"""
+    want = {id(o) for (o, _) in removed}
+    parent = ("s." + pos).rsplit(".", 1)[0]
+    out = set()
+    try:
+        for d in top.get_all_upblk_metadata():
+            for blk, xs in d.items():
+                if any(id(x) in want for x in xs):
+                    host = repr(top.get_update_block_host_component(blk))
+                    out.add("parent-block" if host == parent else "grandparent-block")
+    except Exception:                   # noqa: BLE001
+        return ["?"]
+    return sorted(out)
+
+
 def _prebuilt(fam, init, steps):
     """the objects of all replace_component_with_obj steps, built before the design itself"""
     g, a = dict(init), fam.init_arg(init)
@@ -1037,10 +1087,11 @@ def replay_history(famname, init, steps, inputs, check="last", sim=True, pre=Fal
     for i, (kind, pos, cls) in enumerate(steps):
         g2, a2 = fam.step(cfg, arg, kind, pos, cls)
         try:
-            removed += apply_step(fam, top, kind, pos, cls, cfg, objs[i])
+            apply_step(fam, top, kind, pos, cls, cfg, objs[i], removed)
         except Exception as e:          # noqa: BLE001
             info = _exc_info(e)
             info["step"] = i + 1
+            info["kept_by"] = stale_holders(top, removed, pos)
             try:
                 fam.build(g2)
                 info["fresh_builds"] = True
